@@ -1,21 +1,24 @@
 import Driver.Arith
+import Driver.Model
 /-! Line-protocol driver: one request per input line, one canonical answer per output line. -/
 open Driver
 
-def handle (line : String) : String :=
+def handle (st : St) (line : String) : St × String :=
   let ws := (line.trimAscii.toString.splitOn " ").filter (· ≠ "")
   match ws with
-  | [] => ""
-  | "arith" :: rest => (arithLine rest).getD "bad-op"
-  | _ => "bad-op"
+  | [] => (st, "")
+  | "arith" :: rest => (st, (arithLine rest).getD "bad-op")
+  | "m" :: rest => modelLine st rest
+  | _ => (st, "bad-op")
 
-partial def loop (h : IO.FS.Stream) (out : IO.FS.Stream) : IO Unit := do
+partial def loop (h : IO.FS.Stream) (out : IO.FS.Stream) (st : St) : IO Unit := do
   let line ← h.getLine
   if line.isEmpty then return ()
-  out.putStrLn (handle line)
-  loop h out
+  let (st, r) := handle st line
+  out.putStrLn r
+  loop h out st
 
 def main : IO Unit := do
   let stdin ← IO.getStdin
   let stdout ← IO.getStdout
-  loop stdin stdout
+  loop stdin stdout {}
